@@ -240,7 +240,7 @@ func runC19(c *Ctx, r *Report, tier string) {
 	// the bool-default test precedes registration (append to Group.options)
 	optsF := c.mustField(r, "Group", "options")
 	for _, s := range c.storesTo(optsF) {
-		if s.Fn != ss {
+		if !c.actsFor(s.Fn, ss) {
 			continue
 		}
 		_, ok := c.MustPass(ss, isInstr(s.Store), c.isCallTo("(*Option).isBool"), nil, nil)
@@ -553,7 +553,7 @@ func (c *Ctx) modelRules(r *Report, ss *ssa.Function) {
 			}
 			found := false
 			for _, s := range c.storesTo(fo) {
-				if s.Fn != h {
+				if !c.actsFor(s.Fn, h) {
 					continue
 				}
 				t := c.term(s.Store.Val)
@@ -567,7 +567,7 @@ func (c *Ctx) modelRules(r *Report, ss *ssa.Function) {
 		}
 		so := c.Field("Command", "SubcommandsOptional")
 		for _, s := range c.storesTo(so) {
-			if s.Fn != h {
+			if !c.actsFor(s.Fn, h) {
 				continue
 			}
 			_, ok := c.Requires(h, isInstr(s.Store), litHas(true, "nonempty("+get("subcommands-optional")), nil)
@@ -580,7 +580,7 @@ func (c *Ctx) modelRules(r *Report, ss *ssa.Function) {
 			fo := c.Field("Group", f.fld)
 			found := false
 			for _, s := range c.storesTo(fo) {
-				if s.Fn == g && strings.Contains(c.term(s.Store.Val), get(f.key)) {
+				if c.actsFor(s.Fn, g) && strings.Contains(c.term(s.Store.Val), get(f.key)) {
 					found = true
 				}
 			}
